@@ -4,9 +4,19 @@ import CnbVerif.Driver.C04
 /-!
 Driver glue for C20. A case is `kind \t a \t b` (the scenario; its content is executed by the harness):
 `layers` (a history of struct- and trait-API layer operations replayed in fresh processes), `bp` (the harness's
-data-driven buildpack run as `detect` / `build`), `tbp` (the C05 test buildpack), `probe` (is `toml::Table` sorted?).
+data-driven buildpack run as `detect` / `build`), `tbp` (the C05 test buildpack), `probe` (is `toml::Table` sorted?),
+`execd` (a restored layer whose `exec.d` was prepared by hand and is written again, see below).
 The implementation's observation is `equal` or `differ:<first differing line>` (or `infra:…` when the runs could not be
 carried out).
+
+Kind `execd`: `a` = `<api>,<entry>,…` (api `s` struct API KeepLayer + `write_exec_d_programs`, `t` trait API `Update`;
+entry = `f<path hex>=<content hex>` plain file, `l<path hex>=<target hex>` symlink, `h<path hex>=<existing path hex>`
+hard link; paths relative to the layer directory), `b` = wanted programs `<name hex>=<source hex>` joined by `+`. The
+entries are replayed into `Det.XFs` (storage identity kept: hard links share an inode number, symlinks to a sibling or
+to a known file elsewhere are followed by `XFs.copyTo`), `Det.replaceExecdX` is run on it with the programs in the given
+order, and the model's observation is `equal|ok|<listing of the model's exec.d>` in the harness's format (regular
+files with the link count `XFs.nlink` computes). Both APIs reach the same function with the same `exec.d`, so `api`
+does not enter the model. The spec oracle is `Spec.Det.execdVerdict`.
 
 The model's prediction: `equal` (Props/C20: on the success paths the outputs do not depend on the iteration order),
 except for the two error-path classes where the **model itself** is order-sensitive — an exec.d write whose copy loop
@@ -50,8 +60,103 @@ def opOrderSensitive (op : String) : Bool :=
   | ["T", _, _, _, _, env, progs, _] => envOrderSensitive env || execdOrderSensitive progs
   | _ => false
 
+/-! ### kind `execd` -/
+
+structure Prep where
+  fs : Det.XFs := {}
+  /-- path (relative to the layer directory) ↦ inode, for the regular files prepared so far -/
+  paths : List (Bytes × Nat) := []
+  next : Nat := 0
+
+def execdPrefix : Bytes := strBytes "exec.d/"
+
+def stripPre (pre p : Bytes) : Option Bytes := if pre.isPrefixOf p then some (p.drop pre.length) else none
+
+/-- what a symlink placed in `exec.d` designates: a sibling (no `/` in the target), a known regular file elsewhere
+(`../<path in the layer>` or `$ROOT/<path below the temp root>`), or nothing the model can write through -/
+def linkEnt (st : Prep) (target : Bytes) : Det.XEnt :=
+  if !target.contains 47 then .symSib target
+  else
+    let known : Option Nat :=
+      match stripPre (strBytes "../") target with
+      | some rest => List.lookup rest st.paths
+      | none =>
+        match stripPre (strBytes "$ROOT/") target with
+        | some rest => List.lookup (strBytes "../../" ++ rest) st.paths
+        | none => none
+    match known with
+    | some k => .symOut k
+    | none => .other
+
+def addEntry (st : Prep) (kind : String) (path val : Bytes) : Option Prep :=
+  match stripPre execdPrefix path with
+  | some rest =>
+    let name := rest.takeWhile (· != 47)
+    if name.isEmpty then none
+    else if name.length < rest.length then some { st with fs := st.fs.setName name .other }   -- below a sub-directory of exec.d
+    else if kind == "f" then
+      some { fs := (st.fs.setName name (.ino st.next)).setData st.next val, paths := (path, st.next) :: st.paths, next := st.next + 1 }
+    else if kind == "h" then
+      (List.lookup val st.paths).map (fun k => { st with fs := st.fs.setName name (.ino k), paths := (path, k) :: st.paths })
+    else if kind == "l" then some { st with fs := st.fs.setName name (linkEnt st val) }
+    else none
+  | none =>
+    if kind == "f" then
+      some { fs := { st.fs.setData st.next val with outer := st.next :: st.fs.outer }, paths := (path, st.next) :: st.paths, next := st.next + 1 }
+    else if kind == "h" then
+      (List.lookup val st.paths).map (fun k => { st with fs := { st.fs with outer := k :: st.fs.outer }, paths := (path, k) :: st.paths })
+    else if kind == "l" then some st
+    else none
+
+def parseEntry (s : String) : Option (String × Bytes × Bytes) :=
+  match (s.drop 1).toString.splitOn "=" with
+  | [p, v] => match hexDecode p, hexDecode v with
+    | some p, some v => some ((s.take 1).toString, p, v)
+    | _, _ => none
+  | _ => none
+
+def prepare : Prep → List (String × Bytes × Bytes) → Option Prep
+  | st, [] => some st
+  | st, (k, p, v) :: rest => match addEntry st k p v with
+    | some st' => prepare st' rest
+    | none => none
+
+def parseWanted (s : String) : Option (Bytes × Bytes) :=
+  match parseProg s with
+  | some (n, some b) => some (n, b)
+  | _ => none
+
+/-- the harness's listing format (`c20.rs` `execd_listing`), from the model's `exec.d` -/
+def showEntry (fs : Det.XFs) (kv : Bytes × Det.XEnt) : String :=
+  match fs.node kv.2 with
+  | .file b => hexEncode kv.1 ++ ":F:" ++ hexEncode b ++ ":" ++ toString (fs.nlink kv.2)
+  | .link _ => hexEncode kv.1 ++ ":L"
+  | .dir _ => hexEncode kv.1 ++ ":D"
+
+def showListing : Option Det.XFs → String
+  | none => "absent"
+  | some fs =>
+    if fs.names.isEmpty then "empty"
+    else String.intercalate "," ((sortBy (fun x y => bytesLt x.1 y.1) fs.names).map (showEntry fs))
+
+def handleExecd (a b obs : String) : String × String :=
+  match splitList a "," with
+  | api :: entries =>
+    match allSome (entries.map parseEntry), allSome ((splitList b "+").map parseWanted) with
+    | some es, some wanted =>
+      match prepare {} es with
+      | some st =>
+        if (api == "s" || api == "t") && obs != "bad-fields" then
+          let r := Det.replaceExecdX st.fs wanted
+          ("equal|" ++ (if r.2 then "ok" else "err:io") ++ "|" ++ showListing r.1, Spec.Det.execdVerdict wanted obs)
+        else ("bad-op", "bad-op")
+      | none => ("bad-op", "bad-op")
+    | _, _ => ("bad-op", "bad-op")
+  | [] => ("bad-op", "bad-op")
+
 def handle (fields : List String) (obs : String) : String × String :=
   match fields with
+  | ["execd", a, b] => handleExecd a b obs
   | [kind, a, b] =>
     if knownKinds.contains kind && !a.isEmpty && !b.isEmpty && obs != "bad-fields" then
       let sensitive := (kind == "layers" || kind == "bp") && (splitList b ";").any opOrderSensitive
